@@ -109,6 +109,21 @@ func (w *World) buildOverlay(props map[string]bool) error {
 		return err
 	}
 	pkgDirs := map[string]string{}
+	// a package's harness files share helpers: when any file of a directory is selected for
+	// the property, all zz_verif files of that directory are loaded
+	hitDirs := map[string]bool{}
+	filepath.Walk(root, func(p string, info os.FileInfo, err error) error {
+		if err != nil || info.IsDir() || !strings.HasSuffix(p, ".go") || !strings.HasPrefix(filepath.Base(p), "zz_verif_") {
+			return nil
+		}
+		parts := strings.Split(strings.TrimSuffix(filepath.Base(p), ".go"), "_")
+		for _, pt := range parts[2:] {
+			if props[pt] {
+				hitDirs[filepath.Dir(p)] = true
+			}
+		}
+		return nil
+	})
 	err = filepath.Walk(root, func(p string, info os.FileInfo, err error) error {
 		if err != nil || info.IsDir() || !strings.HasSuffix(p, ".go") {
 			return err
@@ -127,7 +142,7 @@ func (w *World) buildOverlay(props map[string]bool) error {
 					hit = true
 				}
 			}
-			if !hit {
+			if !hit && !hitDirs[filepath.Dir(p)] {
 				return nil
 			}
 		}
